@@ -24,6 +24,12 @@ CLAIMED = {
     "C05": ("runtime monitoring: boundary recorder on AStarSearch/BreadthFirstSearch.plan_on (results, internal assertions); oracle = own Dijkstra/BFS-level computation with exact integer costs, path validated step by step against the graph and the returned policy",
             "Held-on-K-executions over generated digraphs x heuristics x tie-breaking x seeds x 5 presentations. Exploration: all-inputs property.",
             "trusts the 40-line Dijkstra/BFS reference in the check; heuristics finite and consistent by construction", "§4 C05"),
+    "C11": ("runtime monitoring: boundary recorder on every distribution operation for every kind (dict/uniform/deterministic/softmax/table-row, mixed-kind operands) + sample monitor (every seeded draw must have positive probability, equal seeds give equal sequences); oracle = the laws computed on plain weight dictionaries",
+            "Held-on-K-executions of the probability laws over generated distributions incl. zero-probability and unnormalised entries. Exploration: all-inputs property.",
+            "float64 reference with math.fsum, 1e-12 relative tolerance", "§4 C11"),
+    "C12": ("runtime monitoring: boundary recorder on __getitem__/get/keys/items/len/action_dist of real Table/ProbabilityTable/StateTable/StateActionTable/TabularPolicy objects; oracle = table_resolve, an independent nested-dictionary model with the outermost-element priority rule",
+            "Held-on-K-executions over generated tables with deliberately colliding key spaces: all full keys, nested keys, outer-key lists, slices/ellipses and foreign keys are resolved by both the real table and the model.",
+            "trusts the 60-line table_resolve model in the check", "§4 C12"),
 }
 
 PENDING_REASON = "check not built yet in this round (design in DESIGN.md §4); not claimed until its monitor exists and is silent on the unchanged tree"
